@@ -35,6 +35,11 @@ DATASETS = {
     'reference-json': dict(cols=6, rows=1300, B=300, heuristic='MI-numba-randomized', target_only='False', cap=9, cards=[2, 3, 7, 40], reference=['f1', 'f2,f3', 'f4']),
     # a final partial batch (> 1024 rows, shorter than the full ones): per-process buffers sized by an earlier batch would show here
     'tail-batch': dict(cols=5, rows=2650, B=1500, heuristic='MI-numba-randomized', target_only='False', cap=10 ** 6, cards=[2, 6, 30, 300]),
+    # pairwise + sampling ratio < 1 + an identifier-like column that is not the first one (per-pair state written onto shared objects leaks
+    # to the later pairs of a worker's chunk), and a column that is constant throughout the first mini-batch and varies afterwards
+    # (anything a worker remembers about a feature from an earlier batch)
+    'pairwise-subsampled-idlike-late-flag': dict(cols=6, rows=1300, B=300, heuristic='MI-numba-randomized', target_only='False', cap=10 ** 6, cards=[2, 3, 7, 40, 9],
+                                                 ratio=0.5, idlike=2, const_first=3),
     'target-randomized-subsampled': dict(cols=12, rows=2000, B=300, heuristic='MI-numba-randomized', target_only='True', cap=10 ** 6, cards=[2, 10, 200, 2000], subsampling=2, ratio=0.6),
 }
 
@@ -42,7 +47,7 @@ DATASETS = {
 def plan(tier, seed):
     shards = []
     if tier == 'quick':
-        sets = ['pairwise-randomized-cap', 'target-coverage', 'target-randomized-interactions', 'pairwise-3mr', 'target-randomized-subsampled', 'tail-batch', 'reference-json']
+        sets = ['pairwise-randomized-cap', 'target-coverage', 'target-randomized-interactions', 'pairwise-3mr', 'target-randomized-subsampled', 'tail-batch', 'reference-json', 'pairwise-subsampled-idlike-late-flag']
         pools, dseeds = [1, 2, 3, 8, 16], [0, 1]
     else:
         sets = list(DATASETS)
@@ -80,6 +85,12 @@ def make_dataset(seed, ds, path):
     sparse = np.where((label == 1) & (r.random(n) < 0.8), 'seen', '')
     for i in range(n):
         rows[i][0] = str(sparse[i])
+    if 'idlike' in cfg:
+        for i in range(n):
+            rows[i][cfg['idlike']] = 'u%05d' % i
+    if 'const_first' in cfg:
+        for i in range(min(n, cfg['B'])):
+            rows[i][cfg['const_first']] = 'off'
     os.makedirs(path, exist_ok=True)
     pipe.write_csv(os.path.join(path, 'data.csv'), header, rows)
     return cfg
